@@ -324,6 +324,50 @@ pub fn t_iter_nested_closure_state(x: u32, y: u32) -> u64 {
     total ^ u64::from(seen) << 60
 }
 
+fn opt_helper(x: u32, y: u32) -> Option<u32> {
+    let a = x.checked_sub(5)?;
+    let b = y.checked_add(a)?;
+    Some(a ^ b)
+}
+
+fn res_helper(x: u32) -> Result<u8, u32> {
+    let v = u8::try_from(x).map_err(|_| x)?;
+    Ok(v / 2)
+}
+
+pub fn t_question_mark(x: u32, y: u32) -> u64 {
+    opt_helper(x, y).map_or(7, u64::from) * 3 + res_helper(y).map_or_else(|e| u64::from(e) + 1000, u64::from)
+}
+
+pub fn t_btreemap(x: u32, y: u32) -> u64 {
+    use std::collections::BTreeMap;
+    let mut m: BTreeMap<u8, u32> = BTreeMap::new();
+    *m.entry((x & 3) as u8).or_default() += 1;
+    *m.entry((y & 3) as u8).or_default() += 10;
+    m.entry(2).and_modify(|v| *v += 100).or_insert(1000);
+    let old = m.insert(7, x & 0xff);
+    let had = m.contains_key(&3);
+    let g = m.get(&0).copied().unwrap_or(55);
+    let r = m.remove(&1).unwrap_or(66);
+    let s: u32 = m.values().sum();
+    if let Some(v) = m.get_mut(&2) {
+        *v += 1;
+    }
+    m.retain(|k, _| *k != 0);
+    u64::from(s) + u64::from(g) * 10_000 + u64::from(r) * 100_000_000 + m.len() as u64 * 3 + u64::from(had) + u64::from(old.is_some()) * 2
+        + u64::from(m[&2]) * 7
+}
+
+pub fn t_try_iter(x: u32, y: u32) -> u64 {
+    let a = bytes(x, y);
+    let r: Result<(), u8> = a.iter().try_for_each(|b| if *b == 0x20 { Err(*b) } else { Ok(()) });
+    let s: Option<u32> = a.iter().try_fold(0u32, |acc, b| acc.checked_add(u32::from(*b) << 22));
+    let m: u64 = a.iter().map_while(|b| b.checked_sub(16)).map(u64::from).sum();
+    let t = (x > y).then_some(x - y.min(x)).unwrap_or(3);
+    let u = (y & 1 == 1).then(|| y / 3).map_or(9, u64::from);
+    u64::from(r.is_err()) + u64::from(s.unwrap_or(77)) * 2 + m * 1_000_000_000_000 + u64::from(t % 1000) * 5 + u
+}
+
 pub const NAMES: &[(&str, fn(u32, u32) -> u64)] = &[
     ("t_fold", t_fold),
     ("t_skip_while_take", t_skip_while_take),
@@ -359,4 +403,7 @@ pub const NAMES: &[(&str, fn(u32, u32) -> u64)] = &[
     ("t_matches_let_else", t_matches_let_else),
     ("t_array_ops", t_array_ops),
     ("t_iter_nested_closure_state", t_iter_nested_closure_state),
+    ("t_question_mark", t_question_mark),
+    ("t_btreemap", t_btreemap),
+    ("t_try_iter", t_try_iter),
 ];
